@@ -15,6 +15,7 @@ import (
 	dtls "github.com/pion/dtls/v3"
 	dtlsstate "github.com/pion/dtls/v3/internal/state"
 	"github.com/pion/dtls/v3/zzverif/refimpl"
+	"github.com/pion/dtls/v3/zzverif/run"
 	"github.com/pion/dtls/v3/zzverif/world"
 )
 
@@ -93,6 +94,7 @@ type progressSink struct {
 	mu    sync.Mutex
 	f     *os.File
 	child bool
+	n     int
 }
 
 var progress progressSink
@@ -103,6 +105,9 @@ func (p *progressSink) note(caseID string, in *input, i, n int) {
 	}
 	if p.f == nil {
 		return
+	}
+	if p.n++; p.n%500 == 0 {
+		run.Heartbeat() // an injection completed: the chain is alive (a spinning library stops these)
 	}
 	line := fmt.Sprintf("case=%s input=%s (%d/%d) %s", caseID, in.id(), i, n, in.desc)
 	if len(in.data) > 0 && len(in.data) <= 64 {
